@@ -3,7 +3,8 @@
 Python/model part: for every struct/union/typedef of a generated schema compare
   prophyc model node (byte_size, alignment, kind)  vs  RefWire  vs  generated Python class statics,
   and len(encode()) of generated values of fixed types vs that size.
-C++ part (cpp_layout section): encoded_byte_size of the full codec and sizeof of the raw struct.
+C++ part (cpp_layout section): encoded_byte_size of the full codec, the lengths its encoders produce for a default-
+constructed object of every fixed type, and sizeof / member offsets of the raw struct.
 """
 import time
 
@@ -171,6 +172,20 @@ def cpp_statics(schema):
             if l.startswith('C '):
                 _, name, val = l.split()
                 ebs[name] = int(val.split('=')[1])
+        # every encoding of a fixed type has exactly that length: the default-constructed object (absent optionals,
+        # first union arm, empty limited arrays) through all six encoders
+        fixed = [c.name for c in schema.composites() if rw.layout(c.name)[2] == FIXED]
+        lens = {}
+        if fixed:
+            res = cpph.run_driver(full.exe, ['def %s < %s 0' % (n, cpph.hexarg(b'')) for n in fixed])
+            for n, r in zip(fixed, res):
+                if 'crash' in r:
+                    return ("C++ full codec died encoding a default-constructed %s: %s" % (n, r['crash']),
+                            {'stderr': r.get('stderr', '')[-800:]}, n)
+                if r.get('ok'):
+                    lens[n] = {'get_byte_size': r['gbs'], 'encode<little>(void*)': r['ptrL'],
+                               'encode<big>(void*)': r['ptrB'], 'encode(void*)': r['ptrN'],
+                               'encode<little>()': len(r['encL']), 'encode<big>()': len(r['encB'])}
     finally:
         full.cleanup()
     for c in schema.composites():
@@ -179,6 +194,9 @@ def cpp_statics(schema):
         if ebs.get(c.name) != want:
             return ("C++ full codec: %s::encoded_byte_size is %r, wire rules say %r" % (c.name, ebs.get(c.name), want),
                     {'stiffness': KIND_NAMES[stiff]}, c.name)
+        if c.name in lens and set(lens[c.name].values()) != {size}:
+            return ("C++ full codec: a default-constructed %s (fixed, wire size %d) encodes to other lengths: %r" % (
+                c.name, size, lens[c.name]), {'stiffness': KIND_NAMES[stiff]}, c.name)
     raw = cpph.RawTU(schema, sanitize=False)
     try:
         for label, want, got in raw.layout():
